@@ -223,6 +223,37 @@ Definition redirect (from to : string) (g : list fn_node) : list fn_node :=
                   (map (fun c => if c =? from then to else c) (fn_callees n))
                   (fn_writes n) (fn_own n)) g.
 
+(* Implicit drops.  The generated graph has a pseudo node "drop_glue(T)" for every scanned type T
+   whose drop runs code of the scanned files (it calls `T::drop` and the glue of the fields T owns),
+   and every function has an edge to the glue of every type a value of which may exist in its body.
+
+   The drops-only view: "f@drops" stands for the drops that f and everything f calls perform
+   IMPLICITLY - its callees are the glue nodes f has an edge to and "g@drops" for every other
+   callee g; it has no write primitives of its own.  (From a glue node on, the real `T::drop` with
+   all of its code is reached.)  It is used where the explicit code of a function is accounted for
+   elsewhere but the drop code it triggers is in no model: the callees of the residual sites of
+   clone (Gen/C19Static.v). *)
+Definition glue_prefix : string := "drop_glue(".
+Definition drops_suffix : string := "@drops".
+Definition is_glue (c : string) : bool := String.prefix glue_prefix c.
+Definition has_suffix (suf s : string) : bool :=
+  let n := String.length s in
+  let m := String.length suf in
+  Nat.leb m n && (substring (n - m) m s =? suf).
+Definition glue_of (ty : string) : string := glue_prefix ++ ty ++ ")".
+Definition drops_name (c : string) : string :=
+  if is_glue c || has_suffix drops_suffix c then c else c ++ drops_suffix.
+Definition drops_twin (n : fn_node) : fn_node :=
+  Build_fn_node (fn_name n ++ drops_suffix) (fn_recv n) false (map drops_name (fn_callees n)) [] [].
+Definition with_drops_view (g : list fn_node) : list fn_node :=
+  g ++ map drops_twin
+         (filter (fun n => negb (is_glue (fn_name n)) && negb (has_suffix drops_suffix (fn_name n))) g).
+
+(* the graph the static half of C19 is about: every call of [clone] goes to its source half
+   (the twins keep the un-redirected "clone@drops": all implicit drops of a whole nested clone) *)
+Definition c19_graph_of (clone clone_src : string) (g : list fn_node) : list fn_node :=
+  redirect clone clone_src (with_drops_view g).
+
 (* Reachability as a relation (the computation above is proved sound against it below). *)
 Inductive Reach (g : list fn_node) : string -> string -> Prop :=
 | reach_refl : forall f, Reach g f f
